@@ -64,6 +64,11 @@ class Collector:
         if self.cls is None:
             raise AnalysisError("anchor vanished: the name collector (NodeVisitor filling `assigned`) in transform.py")
         self.handlers = {m.name: Handler(m) for m in self.cls.body if isinstance(m, ast.FunctionDef) and m.name.startswith("visit_")}
+        for n in self.cls.body:          # class-level aliases: visit_AsyncFunctionDef = visit_FunctionDef
+            if isinstance(n, ast.Assign) and isinstance(n.value, ast.Name) and n.value.id in self.handlers:
+                for t in n.targets:
+                    if isinstance(t, ast.Name) and t.id.startswith("visit_"):
+                        self.handlers[t.id] = self.handlers[n.value.id]
         self.helpers = {m.name: Handler(m) for m in self.cls.body if isinstance(m, ast.FunctionDef) and not m.name.startswith(("visit_", "__"))}
         self.init = next((m for m in self.cls.body if isinstance(m, ast.FunctionDef) and m.name == "__init__"), None)
 
@@ -156,8 +161,10 @@ class Collector:
         tcls = type(target).__name__
         h = self.handler_for(tcls)
         recorded, prov, via = False, None, None
+        funcname = False
         if h is not None:
             adds, provs, tall, tf = self.effective(h)
+            funcname = any(sn == "funcnames" for sn, e_, g_ in adds)
             for setname, expr, guard in adds:
                 if setname != "assigned":
                     continue
@@ -179,4 +186,5 @@ class Collector:
                        and n.args[0].value == "." for hh in [h] + [self.handlers[d] for d in h.delegates if d in self.handlers] for n in ast.walk(hh.fn)):
                 recorded, via = False, (via or "") + " (the dotted module path is recorded instead of its first component)"
         return {"recorded": recorded and blocked is None, "provenance": prov if recorded and blocked is None else None,
-                "blocked_by": blocked, "via": via, "handler": h.name if h else None, "class": tcls}
+                "blocked_by": blocked, "via": via, "handler": h.name if h else None, "class": tcls,
+                "funcname": funcname and blocked is None}
